@@ -359,6 +359,7 @@ func cpuHas(want ...string) bool {
 
 type stage struct {
 	thoroughOnly bool // stage runs in the thorough tier only
+	optional     bool // extra reach: if the configuration cannot be built or run here, note it and go on
 	config       string
 	mode         string
 	workers      int // 0 = all
@@ -742,6 +743,10 @@ func runProperty(rc *runCfg, pl *plan) int {
 			}
 			outs, err := runStage(rc, st)
 			if err != nil {
+				if st.optional {
+					m.addInconclusive(fmt.Sprintf("the additional %s configuration could not be built or run here: %v", st.config, err))
+					continue
+				}
 				fatal2("%v", err)
 			}
 			m.absorb(rc, st, outs)
